@@ -406,8 +406,8 @@ impl Run {
                             match res {
                                 Ok(()) => {}
                                 Err(TestError::Fail(_, minimal)) => {
-                                    let mut scratch = Local::default();
-                                    scratch.frozen = true;
+                                    let mut scratch = Local::scratch();
+                                    scratch.tid = tid; // checks that use per-thread scratch directories must not collide
                                     let v = match guard(|| check(&minimal, &mut scratch)) {
                                         Ok(Err(v)) => v,
                                         Ok(Ok(())) => Violation::new(
